@@ -148,4 +148,14 @@ CHECKS = {
           "Performance are checked for len/index/iter agreement and for nested, interleaved and restarted iteration.",
   "note": "Trusted: vmon/snapshot.py. Open known finding: Segment objects cached on the argument by the unfolders (shared with C09).",
  },
+ "C04": {
+  "technique": "post-condition hook on the real save_score_midi (exact rational tick model, mode table, velocity, signature/tempo positions) + re-import through both importers",
+  "text": "Every save_score_midi call is observed: ticks_per_beat must be the lcm of all divisions doubled up to minimum_ppq, "
+          "every note on/off tick the exact integer ppq*(quarter position - origin) for the chosen pickup policy, the partition "
+          "of notes into (track, channel) the one the mode prescribes, note-on velocity the requested one, key/time signatures and "
+          "tempo marks at their ticks; the file is then read back by load_performance_midi and by load_score_midi with the same "
+          "mode and the sounding notes and the part/voice grouping compared. Workload: aligned multi-part scores with non-binary "
+          "divisions and tuplets, pickups, grace notes, ties, groups x modes x policies x minimum_ppq x velocity.",
+  "note": "Trusted: vmon/refmodels/timemaps.py, mido. time_sig_change rewrites signatures by design (positions judged for the other policies); files with a 0/x signature are not re-imported.",
+ },
 }
